@@ -64,5 +64,14 @@ CHECKS["C12"] = dict(
     note=_TB + _KRY + "; parameters within [1e-6, 1e6] (the 1e-40 division guards are never triggered); coverage of the x0 cases is partial (sqrt generators)",
     technique="concolic symbolic execution of the Python source on exact rational-function terms; z3 decides path feasibility, branch flips, the stopping-"
               "contract inequalities and path-coverage completeness; float replay of every path seed")
-for _p in ["C04","C05","C06","C07","C09","C10","C11","C13","C16","C17","C18","C19"]:
+CHECKS["C13"] = dict(
+    text="the real gmres / gmres_fwd / batched arnoldi (through the pytree vmap stand-in) / inv(A, GMRES()) executed on Krylov-parametrised inputs "
+         "A = Q H Q^H, r0 = s Q e1 (symbolic sub-diagonal, scale, x0 scale; fully symbolic H for n = 2), max_iters from 1 beyond n, breakdown, two "
+         "right-hand sides, block-diagonal batches with different Krylov dimension and magnitude, complex: on every explored path the iterate equals "
+         "x0 + Q_m argmin || beta e1 - Hbar_m y || (normal equations of the full Hessenberg matrix, exact elimination), A x = b once m reaches the "
+         "grade, products with A <= m + 1",
+    note=_TB + _KRY + "; upper triangle of H is generic rational for n >= 3; path coverage partial (magnitude orderings inside the padding mask)",
+    technique="concolic symbolic execution of the Python source on exact rational-function terms with exact LAPACK stand-ins; z3 decides path "
+              "feasibility, branch flips and assumption seeds; float replay of every path seed")
+for _p in ["C04","C05","C06","C07","C09","C10","C11","C16","C17","C18","C19"]:
     NA[_p] = "check under construction in this session (not yet registered); see DESIGN.md section 5 for the plan"
